@@ -19,6 +19,7 @@ type urlCase struct {
 	Asg      [][2]any `json:"asg"`
 	Built    []string `json:"built"`
 	Routable bool     `json:"routable"`
+	RStrict  bool     `json:"routable_strict"`
 	Unique   bool     `json:"unique"`
 	Ops      []struct {
 		API   string `json:"api"`
@@ -45,8 +46,8 @@ func urlReplay(s *Summary, raw json.RawMessage) {
 		urlNames(s, &c)
 		return
 	}
-	if !c.Routable || !c.Unique {
-		s.addInfo("skipped_not_routable_or_ambiguous", 1)
+	if !c.Unique {
+		s.addInfo("skipped_ambiguous", 1)
 		return
 	}
 	s.sample(c)
@@ -56,9 +57,17 @@ func urlReplay(s *Summary, raw json.RawMessage) {
 	}
 	built := tokStr(c.Built)
 	extras := [][2]string{{"q", "a b&c"}, {"page", "2"}}
-	for style := 0; style < 3; style++ {
+	for style := 0; style < 6; style++ {
+		strict := style >= 3 // the same three argument styles on a StrictLastSlash router
+		if (strict && !c.RStrict) || (!strict && !c.Routable) {
+			s.addInfo("skipped_not_routable", 1)
+			continue
+		}
 		for nextra := 0; nextra <= 2; nextra++ {
 			r := rux.New()
+			if strict {
+				r = rux.New(rux.StrictLastSlash)
+			}
 			r.GET("/zz/{decoy}/{d2}/{d3}/{d4}", nopHandler) // decoys registered before and after
 			target := r.AddNamed("target", c.Pat, nopHandler)
 			r.GET("/zz", nopHandler)
@@ -69,7 +78,7 @@ func urlReplay(s *Summary, raw json.RawMessage) {
 			var pan any
 			func() {
 				defer func() { pan = recover() }()
-				switch style {
+				switch style % 3 {
 				case 0: // M map
 					m := rux.M{}
 					for k, v := range want {
